@@ -72,6 +72,8 @@ func (n mnode) leaf() any {
 	switch n.VT {
 	case "nil":
 		return nil
+	case "op": // an Operator value stored as a plain leaf (a token list such as [cn = Jesse])
+		return stackage.Eq
 	case "anyslice": // a []any without a label: nothing Marshal can convert, a value like any other
 		return []any{1, 2}
 	case "emptyslice":
@@ -90,6 +92,9 @@ func mOp(i int) stackage.Operator {
 	}
 	if i == 7 {
 		return userOp{"~=", "approx"}
+	}
+	if i == 8 {
+		return sliceOp{"=~", "ctx"} // an operator type Go cannot compare with ==
 	}
 	return stackage.ComparisonOperator(i)
 }
@@ -181,7 +186,7 @@ func checkUnmarshal(got any, n mnode, live any, path string) string {
 		if row[1] != c.Keyword() {
 			return fmt.Sprintf("%s: row keyword %v want %q", path, row[1], c.Keyword())
 		}
-		if row[2] != c.Operator() {
+		if diffAny(row[2], c.Operator()) {
 			return fmt.Sprintf("%s: row operator %v want %v", path, row[2], c.Operator())
 		}
 		ex := n.Kids[0]
@@ -233,7 +238,7 @@ func checkTree(got any, n mnode, orig any, path string) string {
 		if gc.Keyword() != oc.Keyword() {
 			return fmt.Sprintf("%s: keyword %q want %q", path, gc.Keyword(), oc.Keyword())
 		}
-		if gc.Operator() != oc.Operator() {
+		if diffAny(gc.Operator(), oc.Operator()) {
 			return fmt.Sprintf("%s: operator %v want %v", path, gc.Operator(), oc.Operator())
 		}
 		return checkTree(gc.Expression(), n.Kids[0], oc.Expression(), path+".expr")
@@ -304,7 +309,7 @@ func (n mnode) readOnlyBelow() bool {
 }
 
 func (n mnode) plain() bool { // no capacity / case folding anywhere
-	if n.Cap > 0 || n.Fold {
+	if n.Cap > 0 || n.Fold || (n.T == "leaf" && n.VT == "op") { // (IsEqual has no rule for a bare Operator leaf)
 		return false
 	}
 	for _, k := range n.Kids {
@@ -566,6 +571,16 @@ func c04Trees(c *Ctx) []mnode {
 			}
 			trees = append(trees, cur)
 		}
+	}
+	// token lists: a nested Stack of exactly (and of more than) three values whose second one is an Operator,
+	// directly and as a Condition's expression; Conditions over an operator of a slice type
+	opLeaf := mnode{T: "leaf", VT: "op"}
+	for _, k := range kindNames {
+		tok3 := mnode{T: "stack", Kind: "LIST", Kids: []mnode{leaves[0], opLeaf, {T: "leaf", V: "Jesse", VT: "string"}}}
+		tok4 := mnode{T: "stack", Kind: "OR", Kids: []mnode{leaves[0], opLeaf, leaves[3], opLeaf}}
+		trees = append(trees, mnode{T: "stack", Kind: k, Kids: []mnode{tok3, leaves[1]}}, mnode{T: "stack", Kind: k, Kids: []mnode{{T: "cond", Kw: "tok", Op: 2, Kids: []mnode{tok3}}, tok4}}, mnode{T: "stack", Kind: k, Kids: []mnode{opLeaf, tok3}},
+			mnode{T: "stack", Kind: k, Kids: []mnode{{T: "cond", Kw: "sl", Op: 8, Kids: []mnode{leaves[0]}}, {T: "cond", Kw: "sl2", Op: 8, Kids: []mnode{{T: "stack", Kind: "OR", Kids: []mnode{leaves[0], leaves[3]}}}}}},
+			mnode{T: "stack", Kind: k, Kids: []mnode{{T: "cond", Kw: "sl3", Op: 8, Kids: []mnode{tok4}}}})
 	}
 	// []any leaves without a label (nothing to convert), last among the slices of a nested stack, with and
 	// without a convertible sibling after it at the levels above
